@@ -205,8 +205,8 @@ Section ValidatorProof.
   Proof.
     induction vs as [|v r IH]; simpl; auto.
     destruct (bytes_eqb s (ev_name v)); auto.
-    change sp_inaccessible with n_inaccessible. rewrite has_dir_dirs_have.
-    destruct (dirs_have n_inaccessible (ev_dirs v)); auto.
+    all: change sp_inaccessible with n_inaccessible; rewrite has_dir_dirs_have;
+      destruct (dirs_have n_inaccessible (ev_dirs v)); auto.
   Qed.
 
   Hypothesis Hfields : fields_nodup S = true.
@@ -306,16 +306,16 @@ Section ValidatorProof.
         intros [_ H]. exfalso. apply Hearly. apply Hst. split; auto.
         apply andb_true_iff in H. destruct H as [H _]. apply andb_true_iff in H. apply Hobj in H. tauto.
       + destruct (first_unknown (td_input_fields td) ms) as [k|] eqn:Efu.
-        * split; [discriminate|]. intros [_ H]. exfalso.
+        * unfold mk. split; [discriminate|]. intros [_ H]. exfalso.
           apply andb_true_iff in H. destruct H as [H _]. apply andb_true_iff in H. apply Hobj in H.
           destruct H as [_ H]. discriminate.
         * destruct (dirs_have sp_oneOf (td_dirs td)).
           -- destruct ms as [|[k v] [|kv2 r]].
-             ++ split; [discriminate|]. intros [_ H]. rewrite andb_false_r in H. discriminate.
-             ++ destruct v; simpl;
+             ++ unfold mk. split; [discriminate|]. intros [_ H]. rewrite andb_false_r in H. discriminate H.
+             ++ destruct v; cbn [jnull negb];
                   try (rewrite Hst; rewrite andb_true_r; rewrite andb_true_iff; rewrite <- Hobj; tauto).
-                split; [discriminate|]. intros [_ H]. rewrite andb_false_r in H. discriminate.
-             ++ split; [discriminate|]. intros [_ H]. rewrite andb_false_r in H. discriminate.
+                unfold mk. split; [discriminate|]. intros [_ H]. rewrite andb_false_r in H. discriminate H.
+             ++ unfold mk. split; [discriminate|]. intros [_ H]. rewrite andb_false_r in H. discriminate H.
           -- rewrite Hst. rewrite andb_true_r. rewrite andb_true_iff. rewrite <- Hobj. tauto.
   Qed.
 
